@@ -147,6 +147,9 @@ def enc_opts(opts):
     return ";".join("%s=%s" % fv for fv in opts) if opts else "-"
 
 
+EMPTY = "<empty>"
+
+
 def _num(tok):
     x = from_xr(tok)
     return repr(int(x)) if x == int(x) else repr(x)
@@ -160,6 +163,8 @@ def cli_value(flag, v):
         return ",".join(_num(t) for t in v.split(","))
     if flag in ("-lc", "-gc"):
         return ",".join(t.replace(":", ",") if t.startswith("[") else t for t in v.split(","))
+    if v == EMPTY:
+        return ""            # -title "" / -ylabel "": the documented way to remove an automatic text
     return v
 
 
@@ -521,6 +526,8 @@ def observed(flag, value, plot, raw):
 def wanted(flag, value, plot):
     """the documented property value, written from the help text (independent of verif and of the model)"""
     n = PLOTS[plot][0]
+    if value == EMPTY and flag in ("-title", "-xlabel", "-ylabel", "-clabel"):
+        return ""
     if flag in ("-title", "-legloc"):
         return esc(value.replace("_", " "))
     if flag == "-leg":
@@ -666,7 +673,7 @@ def judge(op, impl_out, spec_out):
 
 def cmp(op, impl_out, model_out):
     kind, plot, n, opts, flag = _split(op)
-    return impl_out == model_out
+    return impl_out == model_out.replace(EMPTY, "")
 
 
 def nontrivial(op, out):
@@ -676,8 +683,8 @@ def nontrivial(op, out):
 
 
 # ------------------------------------------------------------------ generators
-TEXTS = ["T", "Hello", "My_title", "x(1)", "a.b", "Mean_abs_err"]
-LABELS = ["XL", "Lead", "y-axis", "abc", "m/s"]
+TEXTS = ["T", "Hello", "My_title", "x(1)", "a.b", "Mean_abs_err", EMPTY]
+LABELS = ["XL", "Lead", "y-axis", "abc", "m/s", EMPTY]
 SIZES = [6, 9, 12.5, 20, 7.3]
 COLORS = ["red", "blue", "k", "0.3", "g", "[0:0.2:1]", "[1:0:0]", "m"]
 LEGLOCS = ["upper_left", "lower_right", "center", "best", "upper_right", "lower_left", "center_left", "lower_center"]
